@@ -1,5 +1,5 @@
 (* C09 — A panicking handler is contained and leaves the router healthy. Property theorems only. *)
-From Rux Require Import Base Writer WriterFacts Chain ChainFacts Dispatch DispatchFacts.
+From Rux Require Import Base Str Writer WriterFacts Chain ChainFacts Dispatch DispatchFacts Reg Table TableFacts Sys SysFacts SysHistory.
 Open Scope Z_scope.
 
 (* With an OnPanic hook (performing effects: status, body, events, snapshots), for every chain, every
@@ -45,9 +45,22 @@ Theorem C09_legacy_F09_refuted :
   end.
 Proof. vm_compute. reflexivity. Qed.
 
+(* end to end (Sys.v): after a history in which some request panicked (escaped, or recovered by the hook), the router is
+   healthy: the next request is served as the first request of the freshly built router, the cache invariant holds and the
+   route tables, global middleware and fallback handlers are what they were *)
+Theorem C09_healthy_end_to_end : forall progs hooks o ss s h m p sc pooled,
+  sys_build o ss = Ok s -> hist_no_slash h -> no_slash m ->
+  Exists req_panicked (sys_outcomes progs hooks s h) ->
+  let s' := sys_run progs hooks s h in
+  fst (sys_serve progs hooks s' m p sc pooled) = fst (sys_serve progs hooks s m p sc fresh_ctx) /\
+  coherent (s_rt s') /\ nocache (s_rt s') = nocache (s_rt s) /\
+  s_routes s' = s_routes s /\ s_globals s' = s_globals s /\ s_noroute s' = s_noroute s /\ s_noallowed s' = s_noallowed s.
+Proof. exact sys_after_panic_healthy. Qed.
+
 Print Assumptions C09_contained.
 Print Assumptions C09_init_ok.
 Print Assumptions C09_hook_once.
 Print Assumptions C09_propagates.
 Print Assumptions C09_healthy.
 Print Assumptions C09_legacy_F09_refuted.
+Print Assumptions C09_healthy_end_to_end.
